@@ -8,27 +8,31 @@ CONSTANTS Base,        \* rounds record of the global hasher (node 1)
           SVals,       \* salt sizes tried
           Pcts,        \* vary_rounds percentages tried
           VKs,         \* <<kind, value>> pairs of vary_rounds explored exhaustively
+          HasTrunc,    \* the hasher has a truncation limit and takes truncate_error
           MaxNodes, MaxSteps, DoEmit
 
 VARIABLES tree,    \* Seq of [p : rounds record, s : salt record, parent : node]
           n, obs
 vars == <<tree, n, obs>>
 
-Init == tree = << [p |-> Base, s |-> SBase, parent |-> 0] >> /\ n = 0
-        /\ obs = [op |-> "init", node |-> 0, kw |-> NoKw, size |-> Unset, relaxed |-> FALSE, res |-> <<"ok">>, r |-> Unset, x |-> Unset, ivals |-> {}]
+Init == tree = << [p |-> Base, s |-> SBase, te |-> FALSE, parent |-> 0] >> /\ n = 0
+        /\ obs = [op |-> "init", node |-> 0, kw |-> NoKw, size |-> Unset, te |-> "unset", relaxed |-> FALSE, res |-> <<"ok">>, r |-> Unset, x |-> Unset, ivals |-> {}]
 
 OptVals == Vals \cup {Unset}
 
-UsingA(k, kw, size, relaxed) ==
+\* te: the truncate_error keyword: "unset" | "true" | "false" (only hashers with a truncation limit take it)
+UsingT(k, kw, size, te, relaxed) ==
     /\ n < MaxSteps /\ n' = n + 1
     /\ LET ur == UsingRounds(tree[k].p, kw, relaxed)
            us == UsingSaltSize(tree[k].s, size, relaxed)
            \* the rounds keywords are handled first, then the salt keywords further up the class chain
            res == IF ur[1] # "ok" THEN ur ELSE IF us[1] # "ok" THEN us ELSE <<"ok">>
-       IN /\ obs' = [op |-> "using", node |-> k, kw |-> kw, size |-> size, relaxed |-> relaxed, res |-> res, r |-> Unset, x |-> Unset, ivals |-> {}]
+       IN /\ obs' = [op |-> "using", node |-> k, kw |-> kw, size |-> size, te |-> te, relaxed |-> relaxed, res |-> res, r |-> Unset, x |-> Unset, ivals |-> {}]
           /\ IF res[1] = "ok" /\ Len(tree) < MaxNodes
-             THEN tree' = Append(tree, [p |-> ur[2], s |-> us[2], parent |-> k])
+             THEN tree' = Append(tree, [p |-> ur[2], s |-> us[2], te |-> IF te = "unset" THEN tree[k].te ELSE te = "true", parent |-> k])
              ELSE tree' = tree
+
+UsingA(k, kw, size, relaxed) == UsingT(k, kw, size, "unset", relaxed)
 
 \* hash with node k: the cost is one of GenRounds; the salt has the default size
 HashA(k, x) ==
@@ -36,13 +40,13 @@ HashA(k, x) ==
     /\ LET ok == GenOk(tree[k].p) IN
        /\ (ok => x \in Draws(tree[k].p)) /\ (~ok => x = Unset)
        \* x is what the random source yields (inside one of the intervals), r the cost the hash carries
-       /\ obs' = [op |-> "hash", node |-> k, kw |-> NoKw, size |-> tree[k].s.sdef, relaxed |-> FALSE,
+       /\ obs' = [op |-> "hash", node |-> k, kw |-> NoKw, size |-> tree[k].s.sdef, te |-> "unset", relaxed |-> FALSE,
                   res |-> <<IF ok THEN "ok" ELSE "TypeError">>, r |-> IF ok THEN Final(tree[k].p, x) ELSE Unset, x |-> x,
                   ivals |-> IF ok THEN Intervals(tree[k].p) ELSE {}]
 
 NeedsA(k, r) ==
     /\ n < MaxSteps /\ n' = n + 1 /\ tree' = tree
-    /\ obs' = [op |-> "needs", node |-> k, kw |-> NoKw, size |-> Unset, relaxed |-> FALSE,
+    /\ obs' = [op |-> "needs", node |-> k, kw |-> NoKw, size |-> Unset, te |-> "unset", relaxed |-> FALSE,
                res |-> <<IF Needs(tree[k].p, r) THEN "True" ELSE "False">>, r |-> r, x |-> Unset, ivals |-> {}]
 
 Kws == { [minA |-> a, minB |-> Unset, maxA |-> c, maxB |-> Unset, def |-> e, rounds |-> Unset, varyK |-> x[1], varyV |-> x[2]] :
@@ -64,7 +68,7 @@ SimKw(dummy) == LET useRounds == RandomElement(1..5) = 1
              varyK |-> vk, varyV |-> IF vk = "int" THEN RandomElement({0, 1, 2, 3}) ELSE IF vk = "pct" THEN RandomElement(Pcts) ELSE 0]
 SimNext == LET k == IF RandomElement(1..2) = 1 THEN Len(tree) ELSE RandomElement(1..Len(tree))
                w == RandomElement(1..10) IN
-           CASE w \in 1..4 -> UsingA(k, SimKw(n), Opt(SVals, 3), RandomElement(BOOLEAN))
+           CASE w \in 1..4 -> UsingT(k, SimKw(n), Opt(SVals, 3), IF HasTrunc THEN RandomElement({"unset", "unset", "true", "false"}) ELSE "unset", RandomElement(BOOLEAN))
              [] w \in 5..8 -> HashA(k, IF GenOk(tree[k].p) THEN RandomElement(Draws(tree[k].p)) ELSE Unset)
              [] OTHER -> NeedsA(k, RandomElement(Vals))
 
@@ -82,7 +86,7 @@ StrictExact == [][(obs'.op = "using" /\ ~obs'.relaxed /\ obs'.res[1] = "ok" /\ L
                     /\ (kw.maxA # Unset => q.maxD >= kw.maxA) /\ (kw.maxB # Unset => q.maxD >= kw.maxB)]_vars
 
 Emit == DoEmit => PrintT(<<"EMIT", ToJson([n |-> n, op |-> obs'.op, node |-> obs'.node, kw |-> obs'.kw, size |-> obs'.size,
-                                           relaxed |-> obs'.relaxed, res |-> obs'.res, r |-> obs'.r, x |-> obs'.x, ivals |-> obs'.ivals, fresh_needs |-> (obs'.op = "hash" /\ obs'.r # Unset /\ Needs(tree[obs'.node].p, obs'.r)),
+                                           relaxed |-> obs'.relaxed, te |-> obs'.te, res |-> obs'.res, r |-> obs'.r, x |-> obs'.x, ivals |-> obs'.ivals, fresh_needs |-> (obs'.op = "hash" /\ obs'.r # Unset /\ Needs(tree[obs'.node].p, obs'.r)),
                                            newnode |-> IF Len(tree') > Len(tree) THEN Len(tree') ELSE 0,
                                            tree |-> tree'])>>)
 View == <<tree, n>>
